@@ -32,14 +32,25 @@ def marker(d):
     """python nested dict -> DictV with marker leaves"""
     out = DictV()
     for k, v in d.items():
-        out.d[k] = marker(v) if isinstance(v, dict) else sp.Symbol(str(v))
+        if isinstance(v, dict):
+            out.d[k] = marker(v)
+        elif isinstance(v, list):
+            out.d[k] = Tup([x for x in v], "list")
+        elif isinstance(v, (int, float)) and not isinstance(v, bool):
+            out.d[k] = sp.nsimplify(v, rational=True)
+        else:
+            out.d[k] = v          # strings, booleans, None: constants of the folder
     return out
 
 
 def unmark(v):
     if isinstance(v, DictV):
         return {k: unmark(x) for k, x in v.d.items()}
-    return str(v)
+    if isinstance(v, Tup):
+        return [unmark(x) for x in v.items]
+    if is_sym(v):
+        return int(v) if v.is_Integer else float(v)
+    return v
 
 
 def merge_ref(a, b):
@@ -60,6 +71,11 @@ CASES = [
     ({"a": {"b": {"c": "U1"}}}, {"a": {"b": {"c": "D1", "d": "D2"}, "e": "D3"}, "f": "D4"}),
     ({"a": "U1"}, {"a": {"b": "D1"}}),       # user scalar over default dict: user wins
     ({"x": {"y": "U1"}, "z": "U2"}, {"x": {"y": "D1", "w": "D2"}, "z": "D3", "q": {"r": "D4"}}),
+    # user values that are falsy in Python are still user values
+    ({"a": 0, "b": False, "c": "", "d": [], "e": 0.0}, {"a": 5, "b": True, "c": "D", "d": ["x"], "e": 0.1, "f": "D6"}),
+    ({"s": {"drop_atol": 0, "ignore_rank": False}}, {"s": {"drop_atol": 1e-8, "ignore_rank": True, "system": "triclinic"}}),
+    ({"out": {"pressure_base": []}}, {"out": {"pressure_base": ["cij", "vs"], "volume_base": ["p"]}}),
+    ({"n": None}, {"n": "D1", "m": None}),
 ]
 
 
